@@ -63,9 +63,9 @@ def execute(stim):
     def fire(site, b, fatal):
         code = {'start': 100, 'init_regular': 200, 'eval': 300, 'main': 400, 'handler': 500,
                 'stop': 600, 'stop_async': 610, 'init_async': 620, 'restore': 630}[site] + b
-        doom = False
-        if site == 'init_regular' and not st['circuit'].is_current_task():
-            fatal, doom = False, True       # early initialisation by an external event
+        doom = False        # (an init routine failing during an early initialisation by an external
+        #                      event is as fatal as any other: the caller gets the exception AND the
+        #                      simulation stops - repaired in edzed, see DESIGN.md section 7 no. 14)
         rec('fault', e=code, fatal=fatal, doom=doom, site=site)
         return Boom(code)
 
